@@ -1,9 +1,12 @@
 import OH.Proofs.EvalSpecDatedYear
-import OH.Proofs.EvalSpecDatedWide
 /-
-C01 refinement, dated ranges: the decidable class `datedSafe` (on the range and the day) under which
-the model's filter is the specification's `datedOk`, and the rule-level class `datedPlain` (no
-offsets, or Easter with a small offset) that implies it on every day.
+C01 refinement, dated ranges: the decidable class under which the model's filter is the specification's
+`datedOk` on every day of 1899-12-31 … 9999-12-31.
+
+Since the pairing windows of `MonthdayRange::Date` are centred on the year the bound has to come from
+(`yearBeforeOffset`: the year of `d - day offset`) the class no longer depends on the day, on year-locality
+or on the size of the shift relative to a year: both day offsets within ±100 000 days (so that every year
+looked at lies in 0 … 20 000, where instances exist and nothing saturates) and a defined meaning.
 -/
 namespace OH.Proofs.EvalSpec
 open OH.Model OH.Model.Cal
@@ -11,139 +14,47 @@ open OH.Spec (shift dateInstance exactInstance specYear datedOk candidateYears y
 
 def offSmallD (o : DateOffset) : Bool := decide (-100000 ≤ o.days ∧ o.days ≤ 100000)
 
-/-- every shifted instance of the bound on the years `ys` stays inside the year it is taken on -/
-def staysOn (ds : DateSpec) (o : DateOffset) (after : Bool) (ys : List Int) : Bool :=
-  ys.all (fun k => match proj ds o after k with | some p => year p == k | none => true)
+/-- Rule-level class (no reference to the day): both day offsets within ±100 000 days, and the range has a
+defined meaning (`datedDefined`: not "no year … year").  Nothing else: any weekday shift, bounds with or
+without a year, single days, ranges longer than a year, offsets that differ by several years. -/
+def datedPlain (s : DateSpec) (so : DateOffset) (e : DateSpec) (eo : DateOffset) : Bool :=
+  offSmallD so && offSmallD eo && datedDefined s e
 
-theorem staysOn_iff (ds : DateSpec) (o : DateOffset) (after : Bool) (ys : List Int) :
-    staysOn ds o after ys = true ↔ ∀ k ∈ ys, ∀ p, proj ds o after k = some p → InY k p := by
-  unfold staysOn
-  simp only [List.all_eq_true]
-  constructor
-  · intro h k hk p hp
-    have := h k hk
-    rw [hp] at this
-    simp only [beq_iff_eq] at this
-    exact inY_iff_year.2 this
-  · intro h k hk
-    cases hp : proj ds o after k with
-    | none => rfl
-    | some p => simp only [beq_iff_eq]; exact inY_iff_year.1 (h k hk p hp)
+/-- The class of (dated range, day) pairs the refinement covers: it no longer depends on the day (the
+parameter is kept for the statements that quantify over days). -/
+def datedSafe (s : DateSpec) (so : DateOffset) (e : DateSpec) (eo : DateOffset) (_d : Int) : Bool :=
+  datedPlain s so e eo
 
-/-- `WindowOK` as a Boolean: the window `y-2 … y+2` of the implementation is adequate for day `d`:
-with `S k`, `E k` the shifted instances of the two bounds on year `k`, for the years `y-w … y+w` the
-specification looks at: `S` and `E` increase from each year to the next, `d < S (y+2)`, `d ≤ E (y+3)`,
-and some start `S k`, `k ∈ y-2 … y+1`, is at or before `d` and after `E (y-3)`. -/
-def windowOKb (s : DateSpec) (so : DateOffset) (e : DateSpec) (eo : DateOffset) (d : Int) : Bool :=
-  let y := year d
-  let w := yearSpan so eo
-  let S := projT s so true
-  let E := projT e eo false
-  (List.range (2 * w)).all (fun (i : Nat) =>
-      decide (S (y - w + i) < S (y - w + i + 1)) && decide (E (y - w + i) < E (y - w + i + 1)))
-    && decide (d < S (y + 2)) && decide (d ≤ E (y + 3))
-    && ([y - 2, y - 1, y, y + 1] : List Int).any (fun k0 => decide (S k0 ≤ d) && decide (E (y - 3) < S k0))
-
-theorem windowOKb_iff (s : DateSpec) (so : DateOffset) (e : DateSpec) (eo : DateOffset) (d : Int) :
-    windowOKb s so e eo d = true ↔
-      WindowOK (projT s so true) (projT e eo false) (year d) d (yearSpan so eo) := by
-  unfold windowOKb
-  simp only [Bool.and_eq_true, List.all_eq_true, List.mem_range, decide_eq_true_eq, List.any_eq_true,
-    List.mem_cons, List.not_mem_nil, or_false]
-  constructor
-  · rintro ⟨⟨⟨hm, a⟩, c⟩, k0, hk0, e'⟩
-    refine ⟨fun k h1 h2 => ?_, fun k h1 h2 => ?_, a, c, k0, by omega, by omega, e'.1, e'.2⟩
-    · have := (hm (k - (year d - yearSpan so eo)).toNat (by omega)).1
-      rw [show year d - (yearSpan so eo : Int) + ((k - (year d - yearSpan so eo)).toNat : Int) = k by omega] at this
-      exact this
-    · have := (hm (k - (year d - yearSpan so eo)).toNat (by omega)).2
-      rw [show year d - (yearSpan so eo : Int) + ((k - (year d - yearSpan so eo)).toNat : Int) = k by omega] at this
-      exact this
-  · intro h
-    obtain ⟨k0, a, b, c, e'⟩ := h.w4
-    exact ⟨⟨⟨fun i hi => ⟨h.monoS _ (by omega) (by omega), h.monoE _ (by omega) (by omega)⟩, h.w1⟩, h.w3⟩,
-      k0, by omega, c, e'⟩
-
-/-- The class of (dated range, day) pairs the refinement covers — decidable; `ys` are the years the
-specification looks at (`candidateYears`: around the day and around the years the bounds carry):
- * both day offsets within ±100 000 days;
- * the range has a defined meaning (`datedDefined`: not "no year … year");
- * both bounds WITHOUT a year (and not a single day): the implementation's window is adequate
-   (`windowOKb`), or — also for a single day — year-locality: every shifted instance stays inside the
-   year it is projected on, for each of the years `ys`;
- * start WITH a year, end without: year-locality of the end; both WITH a year: nothing more. -/
-def datedSafe (s : DateSpec) (so : DateOffset) (e : DateSpec) (eo : DateOffset) (d : Int) : Bool :=
-  let ys := candidateYears s e (yearSpan so eo) d
-  offSmallD so && offSmallD eo &&
-  (match specYear s, specYear e with
-   | none, none => (staysOn s so true ys && staysOn e eo false ys)
-        || (!(s == e && isFixedDate s) && windowOKb s so e eo d)
-   | some _, none => staysOn e eo false ys
-   | some _, some _ => true
-   | none, some _ => false)
-
-theorem dated_eq_of_safe (s : DateSpec) (so : DateOffset) (e : DateSpec) (eo : DateOffset) (d : Int)
-    (hwf : (MonthdayRange.date s so e eo).wf = true) (hsafe : datedSafe s so e eo d = true)
+theorem dated_eq_of_plain (s : DateSpec) (so : DateOffset) (e : DateSpec) (eo : DateOffset) (d : Int)
+    (hwf : (MonthdayRange.date s so e eo).wf = true) (hsafe : datedPlain s so e eo = true)
     (h1 : dateStart - 1 ≤ d) (h2 : d < dateEnd) :
     MonthdayRange.filter (.date s so e eo) d = .ok (datedOk s so e eo d) := by
   simp only [MonthdayRange.wf, DateOffset.wf, Bool.and_eq_true] at hwf
   obtain ⟨⟨⟨ws, ⟨wso, _⟩⟩, we⟩, ⟨weo, _⟩⟩ := hwf
-  unfold datedSafe at hsafe
+  unfold datedPlain at hsafe
   simp only [Bool.and_eq_true, offSmallD, decide_eq_true_eq] at hsafe
-  obtain ⟨⟨hss, hes⟩, hcls⟩ := hsafe
+  obtain ⟨⟨hss, hes⟩, hdef⟩ := hsafe
   have hs : BoundOK s so := ⟨ws, wso, hss⟩
   have he : BoundOK e eo := ⟨we, weo, hes⟩
   cases hsy : specYear s with
   | none =>
     cases hey : specYear e with
-    | some ey => simp [hsy, hey] at hcls
+    | some ey => simp [datedDefined, hsy, hey] at hdef
     | none =>
-      simp only [hsy, hey, Bool.or_eq_true, Bool.and_eq_true, staysOn_iff, Bool.not_eq_true',
-        Bool.and_eq_false_iff, windowOKb_iff] at hcls
-      rw [candidateYears_yearless s e _ d hsy hey] at hcls
-      rcases hcls with ⟨cS, cE⟩ | ⟨hnsb, hW⟩
-      · by_cases hns : s = e ∧ isFixedDate s = true
-        · -- a single fixed day without a year
-          obtain ⟨rfl, hfx⟩ := hns
-          cases s with
-          | easter yr => simp [isFixedDate] at hfx
-          | fixed yr m dd =>
-            cases yr with
-            | some n => simp [specYear] at hsy
-            | none =>
-              have exact_inst : ∀ k f after, ofYmd? k m dd = some f →
-                  dateInstance (.fixed none m dd) k after = some f := by
-                intro k f after hf; simp [dateInstance, hf]
-              apply dated_single_eq m dd so eo d wso hss weo hes h1 h2
-              · intro k hk1 hk2 f hf
-                exact cS k ((mem_yearsNear _ _ _).2 ⟨hk1, hk2⟩) _ (by simp [proj, exact_inst k f true hf])
-              · intro k hk1 hk2 f hf
-                exact cE k ((mem_yearsNear _ _ _).2 ⟨hk1, hk2⟩) _ (by simp [proj, exact_inst k f false hf])
-        · have hy := year_window h1 h2
-          have hw := yearSpan_bounds so eo hss hes
-          apply dated_yearless_eq s so e eo d hs he hsy hey hns h1 h2
-          apply windowOK_of_inY _ _ _ _ _ hw.1 (inY_year d)
-          · intro k a b
-            obtain ⟨p, hp⟩ := proj_some_yearless s so true ws hsy k (by omega)
-            have := cS k ((mem_yearsNear _ _ _).2 ⟨a, b⟩) p hp
-            simpa [projT, hp] using this
-          · intro k a b
-            obtain ⟨p, hp⟩ := proj_some_yearless e eo false we hey k (by omega)
-            have := cE k ((mem_yearsNear _ _ _).2 ⟨a, b⟩) p hp
-            simpa [projT, hp] using this
-      · have hns : ¬ (s = e ∧ isFixedDate s = true) := by
-          rintro ⟨rfl, hfx⟩
-          rcases hnsb with h | h
-          · simp at h
-          · rw [hfx] at h; cases h
-        exact dated_yearless_eq s so e eo d hs he hsy hey hns h1 h2 hW
+      by_cases hns : s = e ∧ isFixedDate s = true
+      · -- a single fixed day without a year
+        obtain ⟨rfl, hfx⟩ := hns
+        cases s with
+        | easter yr => simp [isFixedDate] at hfx
+        | fixed yr m dd =>
+          cases yr with
+          | some n => simp [specYear] at hsy
+          | none => exact dated_single_eq m dd so eo d wso hss weo hes h1 h2
+      · exact dated_yearless_eq s so e eo d hs he hsy hey hns h1 h2
   | some sy =>
     cases hey : specYear e with
-    | none =>
-      simp only [hsy, hey, staysOn_iff] at hcls
-      exact dated_year_yearless_eq s so e eo d hs he sy hsy hey h1 h2 hcls
+    | none => exact dated_year_yearless_eq s so e eo d hs he sy hsy hey h1 h2
     | some ey =>
-      simp only [hsy, hey] at hcls
       by_cases hns : s = e ∧ isFixedDate s = true
       · obtain ⟨rfl, hfx⟩ := hns
         cases s with
@@ -151,131 +62,16 @@ theorem dated_eq_of_safe (s : DateSpec) (so : DateOffset) (e : DateSpec) (eo : D
         | fixed yr m dd =>
           cases yr with
           | none => simp [specYear] at hsy
-          | some n =>
-            exact dated_single_year_eq n m dd so eo d wso weo
+          | some n => exact dated_single_year_eq n m dd so eo d wso weo
       · exact dated_year_year_eq s so e eo d hs he sy ey hsy hey hns h1 h2
 
-/-! ### rule-level classes: safe on every day -/
-
-def noOffset (o : DateOffset) : Bool := o.wday == .none && o.days == 0
-
-/-- Easter shifted by at most 70 days either way (and possibly to a neighbouring weekday) stays in its year -/
-def easterSmall (ds : DateSpec) (o : DateOffset) : Bool :=
-  (match ds with | .easter _ => true | _ => false) && decide (-70 ≤ o.days ∧ o.days ≤ 70)
-
-/-- a bound whose shifted instances provably stay in their year, whatever the year -/
-def boundPlain (ds : DateSpec) (o : DateOffset) : Bool := noOffset o || easterSmall ds o
-
-theorem shift_noOffset (o : DateOffset) (h : noOffset o = true) (p : Int)
-    (hp : minDay ≤ p ∧ p ≤ maxDay) : shift o p = p := by
-  simp only [noOffset, Bool.and_eq_true, beq_iff_eq] at h
-  unfold shift
-  simp only [h.1, h.2]
-  rw [addDaysSat_eq (by omega) (by omega) (by omega)]
-  omega
-
-theorem yearStart_mar22 (k : Int) : ymdRaw k 3 22 = yearStart (k + 1) - 284 := by
-  have := monthStart_mar k
-  rw [yearStart_succ]; unfold ymdRaw; omega
-
-theorem yearStart_apr25 (k : Int) : ymdRaw k 4 25 = yearStart (k + 1) - 250 := by
-  have := monthStart_apr k
-  rw [yearStart_succ]; unfold ymdRaw; omega
-
-theorem boundPlain_stays (ds : DateSpec) (o : DateOffset) (after : Bool) (hwf : ds.wf = true)
-    (h : boundPlain ds o = true) (k : Int) (hk : 0 ≤ k ∧ k ≤ 20000) (p : Int)
-    (hp : proj ds o after k = some p) : InY k p := by
-  obtain ⟨q, hq, rfl⟩ := proj_eq_some hp
-  have hin := dateInstance_year ds k after hwf hk.1 (by unfold maxYear; omega) q hq
-  simp only [boundPlain, Bool.or_eq_true] at h
-  rcases h with h | h
-  · have hr := inYear_range hk hin
-    rw [shift_noOffset o h q ⟨by rw [minDay_eq]; omega, by rw [maxDay_eq]; omega⟩]; exact hin
-  · simp only [easterSmall, Bool.and_eq_true, decide_eq_true_eq] at h
-    cases ds with
-    | fixed yr m dd => simp at h
-    | easter yr =>
-      obtain ⟨d, he, hyd, lo, hi, _⟩ := easter_spec k hk.1 (by unfold maxYear; omega)
-      simp only [dateInstance, he] at hq
-      split at hq
-      · cases hq
-        have hr := inYear_range hk (inY_iff_year.2 hyd)
-        have sb := shift_bounds o q (by omega) (by rw [minDay_eq]; omega) (by rw [maxDay_eq]; omega)
-        rw [yearStart_mar22] at lo
-        rw [yearStart_apr25] at hi
-        have hl := yearLen_cases k
-        have hs := yearStart_succ k
-        unfold InY; omega
-      · cases hq
-
-theorem staysOn_of_plain (ds : DateSpec) (o : DateOffset) (after : Bool) (hwf : ds.wf = true)
-    (h : boundPlain ds o = true) (ys : List Int) (hys : ∀ k ∈ ys, 0 ≤ k ∧ k ≤ 20000) :
-    staysOn ds o after ys = true := by
-  rw [staysOn_iff]
-  intro k hk p hp
-  exact boundPlain_stays ds o after hwf h k (hys k hk) p hp
-
-/-- Rule-level class (no reference to the day): the range has a defined meaning; day offsets within
-±100 000 days; a bound WITH a year: nothing more; two bounds WITHOUT a year: they carry no offset (or
-are Easter shifted by at most 70 days), or — not a single day — the shifted bounds stay within about a
-year of their nominal year and occurrences are shorter than about a year (`datedWideB`); a yearless end
-after a start with a year: no offset (or Easter ± ≤ 70 days). -/
-def datedPlain (s : DateSpec) (so : DateOffset) (e : DateSpec) (eo : DateOffset) : Bool :=
-  offSmallD so && offSmallD eo &&
-  (match specYear s, specYear e with
-   | none, none => (boundPlain s so && boundPlain e eo)
-        || (!(s == e && isFixedDate s) && datedWideB s so e eo)
-   | some _, none => boundPlain e eo
-   | some _, some _ => true
-   | none, some _ => false)
+theorem dated_eq_of_safe (s : DateSpec) (so : DateOffset) (e : DateSpec) (eo : DateOffset) (d : Int)
+    (hwf : (MonthdayRange.date s so e eo).wf = true) (hsafe : datedSafe s so e eo d = true)
+    (h1 : dateStart - 1 ≤ d) (h2 : d < dateEnd) :
+    MonthdayRange.filter (.date s so e eo) d = .ok (datedOk s so e eo d) :=
+  dated_eq_of_plain s so e eo d hwf hsafe h1 h2
 
 theorem datedSafe_of_plain (s : DateSpec) (so : DateOffset) (e : DateSpec) (eo : DateOffset) (d : Int)
-    (hwf : (MonthdayRange.date s so e eo).wf = true) (h : datedPlain s so e eo = true)
-    (h1 : dateStart - 1 ≤ d) (h2 : d < dateEnd) : datedSafe s so e eo d = true := by
-  simp only [MonthdayRange.wf, DateOffset.wf, Bool.and_eq_true] at hwf
-  obtain ⟨⟨⟨ws, ⟨wso, _⟩⟩, we⟩, ⟨weo, _⟩⟩ := hwf
-  unfold datedPlain at h
-  unfold datedSafe
-  simp only [Bool.and_eq_true] at h ⊢
-  obtain ⟨⟨hss, hes⟩, hcls⟩ := h
-  refine ⟨⟨hss, hes⟩, ?_⟩
-  simp only [offSmallD, decide_eq_true_eq] at hss hes
-  have hw := yearSpan_bounds so eo hss hes
-  have hy := year_window h1 h2
-  have hsyr : ∀ sy, specYear s = some sy → 1900 ≤ sy ∧ sy ≤ 9999 := by
-    intro sy hsy
-    obtain ⟨_, _, a, b⟩ := proj_some_own_year s so true ws sy hsy
-    exact ⟨a, b⟩
-  have heyr : ∀ ey, specYear e = some ey → 1900 ≤ ey ∧ ey ≤ 9999 := by
-    intro ey hey
-    obtain ⟨_, _, a, b⟩ := proj_some_own_year e eo false we ey hey
-    exact ⟨a, b⟩
-  have hys : ∀ k ∈ candidateYears s e (yearSpan so eo) d, 0 ≤ k ∧ k ≤ 20000 := by
-    intro k hk
-    rw [mem_candidateYears] at hk
-    rcases hk with hk | ⟨sy, hsy, hk⟩ | ⟨ey, hey, hk⟩
-    · omega
-    · have := hsyr sy hsy; omega
-    · have := heyr ey hey; omega
-  cases hsy : specYear s with
-  | none =>
-    cases hey : specYear e with
-    | none =>
-      simp only [hsy, hey, Bool.or_eq_true, Bool.and_eq_true] at hcls
-      simp only [Bool.or_eq_true, Bool.and_eq_true]
-      rcases hcls with hcls | hcls
-      · left
-        exact ⟨staysOn_of_plain s so true ws hcls.1 _ hys, staysOn_of_plain e eo false we hcls.2 _ hys⟩
-      · right
-        refine ⟨hcls.1, ?_⟩
-        rw [windowOKb_iff]
-        exact windowOK_of_wide s so e eo d ⟨ws, wso, hss⟩ ⟨we, weo, hes⟩ hsy hey hcls.2 h1 h2
-    | some ey => simp [hsy, hey] at hcls
-  | some sy =>
-    cases hey : specYear e with
-    | none =>
-      simp only [hsy, hey] at hcls ⊢
-      exact staysOn_of_plain e eo false we hcls _ hys
-    | some ey => rfl
+    (h : datedPlain s so e eo = true) : datedSafe s so e eo d = true := h
 
 end OH.Proofs.EvalSpec
